@@ -7,11 +7,12 @@
 EXTENDS Lss, Json, IOUtils
 Bits4(b) == BitsOf(b)
 LInit(t) == [sl |-> [mode |-> "waiting", ident |-> [k \in 1..4 |-> Bits4(t.ident[k])], pos |-> 0, nid |-> t.nid],
-             xs |-> <<>>]
+             xs |-> <<>>, id |-> t.ident]
 LShow(st) == [mode |-> st.sl.mode, pos |-> st.sl.pos, pending |-> Len(st.xs)]
 Bad(st, why) == [ok |-> FALSE, why |-> why, st |-> st]
 Good(st) == [ok |-> TRUE, why |-> "", st |-> st]
-Reply(x) == IF x.r = <<>> THEN <<>> ELSE x.r[1]
+\* a reply that arrives after the master's time-out is silence for this request
+Reply(x) == IF x.r = <<>> \/ x.late THEN <<>> ELSE x.r[1]
 LStep(st, e, t) ==
     CASE e.e = "x" ->
            IF ~(Len(e.q) = 8 /\ IsByteSeq(e.q)) THEN Bad(st, "LSS request is not a full 8-byte frame")
@@ -22,15 +23,19 @@ LStep(st, e, t) ==
                                         ELSE [answer |-> FALSE, slave |-> st.sl]
                   IN IF e.r # (IF r.answer THEN <<IdentifySlave>> ELSE <<>>)
                        THEN Bad(st, "HARNESS: slave simulator reaction differs from the CiA 305 fast-scan slave")
-                       ELSE Good([sl |-> r.slave, xs |-> Append(st.xs, e)])
+                       ELSE Good([st EXCEPT !.sl = r.slave, !.xs = Append(st.xs, e)])
            ELSE Good([st EXCEPT !.xs = Append(st.xs, e)])
       [] e.e = "scan_ret" ->
            IF t.present
              THEN IF ~e.ok THEN Bad(st, "fast scan failed although one unconfigured slave is present")
-                  ELSE IF e.ident # t.ident THEN Bad(st, "fast scan returned a wrong identity")
+                  ELSE IF e.ident # st.id THEN Bad(st, "fast scan returned a wrong identity")
                   ELSE IF st.sl.mode # "config" THEN Bad(st, "fast scan did not leave the slave in configuration state")
                   ELSE Good([st EXCEPT !.xs = <<>>])
              ELSE IF e.ok THEN Bad(st, "fast scan reported success without a slave") ELSE Good([st EXCEPT !.xs = <<>>])
+      [] e.e = "newdev" ->
+           \* another unconfigured device takes the place of the one found before
+           Good([st EXCEPT !.sl = [mode |-> "waiting", ident |-> [k \in 1..4 |-> Bits4(e.ident[k])], pos |-> 0, nid |-> 255],
+                           !.id = e.ident, !.xs = <<>>])
       [] e.e = "svc" ->
            LET xs == st.xs
                n == Len(xs)
